@@ -363,9 +363,7 @@ def run_harness(exe, lines, shard=256, max_bad=24):
 
     def work(sh):
         p = vf.run_lines(exe, sh, timeout=20)
-        o = p.stdout.split('\n')
-        if o and o[-1] == '':
-            o.pop()
+        o = p.stdout.split('\n')[:-1]      # drops '' after a complete last line, or a partial line of a killed process
         if p.returncode == 0 and len(o) == len(sh):
             return o
         res = []
